@@ -331,7 +331,10 @@ func (stb *StarTreeBuilder) encodeNodeDetails(strLevFd *os.File, curLevNodes []*
 */
 func (stb *StarTreeBuilder) EncodeStarTree(segKey string) (uint32, error) {
 
-	strMetaFname := fmt.Sprintf("%s.strm", segKey)
+	// Queries take the existence of the .strm file as "this segment has an agile tree" and read it right
+	// away, so it must not be visible before it (and the .strl file) is complete.
+	strMetaFinalFname := fmt.Sprintf("%s.strm", segKey)
+	strMetaFname := strMetaFinalFname + ".tmp"
 
 	err := stb.Aggregate(stb.tree.Root)
 	if err != nil {
@@ -380,6 +383,12 @@ func (stb *StarTreeBuilder) EncodeStarTree(segKey string) (uint32, error) {
 	}
 
 	strMFd.Close()
+	err = os.Rename(strMetaFname, strMetaFinalFname)
+	if err != nil {
+		log.Errorf("EncodeStarTree: failed to rename %v to %v, err=%v", strMetaFname, strMetaFinalFname, err)
+		_ = os.Remove(strMetaFname)
+		return 0, err
+	}
 	return nddSize + metaSize, nil
 }
 
